@@ -1,6 +1,7 @@
 CONSTANTS
   PathDot = "fixed"
   AnyQuote = "orig"
+  DefaultVia = "to_url"
   KeyDefaults = "count"
   Alpha = {97}
   MaxText = 1
